@@ -113,7 +113,15 @@ def conditions(tier):
                               smoke=[dict(s=sk.replace('?', c)) for c in ('é', 'α', '&', '→') if lo <= ord(c) < hi],
                               descr='skeleton %r, ? over the invertible alphabet in [U+%04X, U+%04X)' % (sk, lo, hi)))
     # ASCII neighbours on both sides free (printable ASCII, ligature pairs excluded by construction: one side is a letter)
-    for sc in (['braces'] if quick else SCHEMES):
+    if quick:
+        # one free printable ASCII neighbour at a time (two free neighbours do not finish within the quick budget)
+        for tag, i, j in (('left', 0, 2), ('right', 2, 0)):
+            conds.append(Cond('ascii_braces_' + tag, 's: str',
+                              ['len(s) == 3', 's[1] == chr(945)', '32 <= ord(s[%d]) < 127' % i, 's[%d] == chr(98)' % j,
+                               'is_invertible(s[%d])' % i], "body_rt(s, 'braces', False, True)", timeout=T, twin=False,
+                              smoke=[dict(s='aαb'), dict(s='bαb'), dict(s='{αb'), dict(s='bα}')][:2],
+                              descr='a Greek letter between a free printable ASCII character (%s) and the letter b' % tag))
+    for sc in ([] if quick else SCHEMES):
         conds.append(Cond('ascii_%s' % sc.replace('-', ''), 's: str',
                           ['len(s) == 3', 's[1] == chr(945)', '32 <= ord(s[0]) < 127', '32 <= ord(s[2]) < 127',
                            'is_invertible(s[0])', 'is_invertible(s[2])'], 'body_rt(s, %r, False, True)' % sc, timeout=T, twin=False,
@@ -128,8 +136,8 @@ META = dict(
                'post-space rule, macro_node_to_text, make_accented_char, symbol tables of latex2text/_defaultspecs.py'],
     bounds=dict(quick='one wildcard character ranging over the whole invertible alphabet (%d characters: built-in table keys and '
                       'printable ASCII minus the %d listed in data/c08_noninvertible.json) followed by a pinned ASCII letter under the braces-after-macro scheme with the default whitespace policy; a '
-                      'Greek letter between two free printable ASCII characters' % (len(INV), len(NONINV)),
-                thorough='all 4 schemes x 2 policies x 6 neighbour skeletons'),
+                      'Greek letter with one free printable ASCII neighbour (left, right) and the letter b on the other side' % (len(INV), len(NONINV)),
+                thorough='all 4 schemes x 2 policies x 6 neighbour skeletons; a Greek letter between two free printable ASCII characters'),
     stubs=['unicodedata.normalize: real function for the wildcard conditions (the character is pinned on each path), identity for the free-ASCII-neighbour condition', 'BisectMap around the table',
            'step budget', 'logging disabled'],
     outside=['two non-ASCII characters next to each other', 'the characters in data/c08_noninvertible.json (many-to-one '
